@@ -95,6 +95,7 @@ def run(rep):
                 'prefix is re-parsed alone and with four different suffixes. Distinct by (class, buffer).')
     from . import c03_engine
     c03_engine.run_engine(rep, thorough)
+    c03_engine.run_dispatch(rep, thorough)
     run_api(rep, thorough)
     rep.assumptions += ['object equality is equality of projections (harness/project.py)',
                         'DeclaredLen in Framing.tla is my reading of the protocol documents']
